@@ -217,7 +217,7 @@ struct WlanEngine : Engine {
                 if (m == 1) { if (!r.have || ek.replay > r.rc1) { r.have = true; r.stage = 1; r.rc1 = ek.replay; memcpy(r.an, ek.nonce, 32); st.inc("probe.ref_m1_new_attempt"); } else if (ek.replay < r.rc1) { r.have = true; r.stage = 1; r.rc1 = ek.replay; memcpy(r.an, ek.nonce, 32); st.inc("probe.ref_m1_lower_counter_new_attempt");   /* a message 1 with another counter - a restarted association, or a stale duplicate - is where the exchange starts over: whatever was collected before belongs to another attempt */ }
                     else st.inc("probe.ref_m1_duplicate_ignored"); }
                 else if (m == 2) { if (r.have && ek.replay == r.rc1 && r.stage == 1) { memcpy(r.sn, ek.nonce, 32); r.stage = 2; } else if (r.have && r.stage >= 2) st.inc("probe.ref_m2_duplicate_ignored"); }
-                else if (m == 3) { if (r.have && r.stage == 2) { r.stage = 3; r.rc3 = ek.replay; memcpy(r.an3, ek.nonce, 32); if (memcmp(r.an, r.an3, 32) != 0) st.inc("probe.ref_m3_anonce_differs_from_held_m1"); } else if (r.have && r.stage == 3 && ek.replay > r.rc3) { r.rc3 = ek.replay; memcpy(r.an3, ek.nonce, 32); st.inc("probe.ref_m3_retransmitted_before_m4"); } else if (r.have && r.stage == 3) st.inc("probe.ref_m3_duplicate_ignored"); }
+                else if (m == 3) { if (r.have && r.stage == 2) { r.stage = 3; r.rc3 = ek.replay; memcpy(r.an3, ek.nonce, 32); if (memcmp(r.an, r.an3, 32) != 0) st.inc("probe.ref_m3_anonce_differs_from_held_m1"); } else if (r.have && r.stage == 3 && ek.replay > r.rc3) { r.rc3 = ek.replay; /* the ANonce of the first message 3 stays: a retransmission repeats it, and a stray message 3 of another exchange must not turn the tracker into something more capable than a capturer that keeps the first one */ st.inc("probe.ref_m3_retransmitted_before_m4"); } else if (r.have && r.stage == 3) st.inc("probe.ref_m3_duplicate_ignored"); }
                 else if (m == 4) { bool took = false; if (r.have && r.stage == 3 && ek.replay <= r.rc3 && b.cipher >= TKIP) { Bytes ptk = wcrypto::ptk_of(b.pmk, f.bssid(), sta, r.an3, r.sn); uint8_t mic[16]; Bytes z = e; if (z.size() >= 97) std::fill(z.begin() + 81, z.begin() + 97, 0); z.resize(std::min<size_t>(z.size(), 99 + ek.data.size())); wcrypto::eapol_mic(Bytes(ptk.begin(), ptk.begin() + 16), ek.desc_version(), z, mic);
                         if (memcmp(mic, ek.mic, 16) == 0) { took = true; if (ap_ok) { r.ptk = ptk; r.known = true; st.inc("probe.ref_handshake_complete"); } r.stage = 0; r.have = false; } else { st.inc("probe.ref_m4_mic_invalid"); r.stage = 0; r.have = false;   /* a message 4 that does not verify (damaged copy, stale nonce) ends the attempt: nothing is demanded of this exchange any more, not even when an intact retry follows (histories with damaged messages are outside the property's premise) */ } }
                     // a message 4 this conservative tracker did not accept may still have completed an exchange for the decrypter (it follows
